@@ -302,8 +302,12 @@ class State:
                 def new_body(carry, scanned_in):
                     in_carry = carry
                     all_values = const_vals + jtu.tree_leaves((in_carry, scanned_in))
-                    # Apply state transformation to the body
-                    body_result, body_state = state(body_fun)(*all_values)
+                    # Apply state transformation to the body; it runs inside the
+                    # namespaces that enclose the scan.
+                    body_result, body_state = State(
+                        collected_state={},
+                        namespace_stack=list(self.namespace_stack),
+                    ).eval(body_fun, *all_values)
                     # Split the body result back into carry and scan parts
                     out_carry, out_scan = split_list(
                         jtu.tree_leaves(body_result), [num_carry]
@@ -324,11 +328,7 @@ class State:
                 # Values saved in the scan body are stacked along the iteration
                 # axis and belong under the namespaces enclosing the scan.
                 # A namespace the body writes to may already hold other names.
-                namespace_path = tuple(self.namespace_stack)
-                _nested_dict_merge(
-                    _nested_dict_get(self.collected_state, namespace_path),
-                    scan_states,
-                )
+                _nested_dict_merge(self.collected_state, scan_states)
 
                 outvals = jtu.tree_leaves(
                     (flat_carry_out, scanned_out),
